@@ -73,6 +73,9 @@ def judge_rejection(dep, rec, L, prop, probes):
     if E is None:
         probe("observation_lost:evaluated-rows")
         E = list(range(n_prior))
+    if any(x < 0 or x >= N for x in E):
+        v.append(Violation(prop, prop + ".evaluated-values", sig + ":likelihood-evaluated-on-values-that-are-not-library-rows", "the batch handed to the likelihood holds %d row(s) whose nonlinear values match no library row (converted as pack() does)" % sum(1 for x in E if x < 0 or x >= N)))
+        return v, info
     if A.randomize and A.perm is not None:
         allp = [int(x) for x in A.perm]
         perm = allp[: len(E)]
